@@ -480,7 +480,7 @@ Qed.
 
 (* ... and inside the class it does not: records of another reference are returned *)
 Definition f17_witness : list container :=
-  [written 100 20 60 10 50 [mkrec 0 (Some 0) 5 8; mkrec 1 (Some 1) 6 9]].
+  [written 100 20 60 10 50 [mkrec 0 (Some 0) 5 8 false; mkrec 1 (Some 1) 6 9 false]].
 
 Lemma f17_witness_ok : file_ok 100 f17_witness.
 Proof.
